@@ -845,6 +845,10 @@ class EnumGen:
                '    let s = match v.get_str(&key) { Some(s) => hex(s.as_bytes()), None => "-".to_string() };',
                '    let i = match v.get_int(&key) { Some(i) => format!("{}", i), None => "-".to_string() };',
                '    let b = match v.get_bool(&key) { Some(true) => "1", Some(false) => "0", None => "-" };',
+               '    // the same through `&&E` receivers (closures over slice iterators) and through a generic bound',
+               '    let rr = &&v;',
+               '    fn via_bound<P: %s::EnumProperty>(p: &P, k: &str) -> (Option<&\'static str>, Option<i64>, Option<bool>) { (p.get_str(k), p.get_int(k), p.get_bool(k)) }' % sp,
+               '    if (rr.get_str(&key), rr.get_int(&key), rr.get_bool(&key)) != (v.get_str(&key), v.get_int(&key), v.get_bool(&key)) || via_bound(&v, &key) != (v.get_str(&key), v.get_int(&key), v.get_bool(&key)) { return "DIVERGE-by-receiver".to_string(); }',
                '    format!("str={} int={} bool={}", s, i, b)',
                '}']
         return out, [('prop', 'op_prop')]
